@@ -197,7 +197,8 @@ Section Weights.
         destruct (track_update cfg tl tr s q d count) as [tl1 tr1]. destruct H as [H1 [H2 [H3 H4]]]. simpl.
         rewrite (upd_same tl1 tr tr1); [exact H1| |rewrite H3; reflexivity].
         rewrite H2, H4, (find_track_id _ _ _ F). exact F.
-      + pose proof (track_update_cons cfg tl (new_track t None true None) s q d count) as H.
+      + destruct (t <? next_id tl)%nat; [|reflexivity].
+        pose proof (track_update_cons cfg tl (new_track t None true None) s q d count) as H.
         destruct (track_update cfg tl (new_track t None true None) s q d count) as [tl1 tr1]. simpl. apply H.
     - destruct (find_track t (tracks tl)); simpl; [apply remove_track_pend|reflexivity].
     - apply clear_pend.
